@@ -451,6 +451,8 @@ class Generator:
                 rawv = None
         if rawv is not None and not isinstance(rawv, mbase.RawTreeModel):
             return values.value_for(r, rawv, hostile=False)
+        if a in ('payee', 'narration'):
+            return r.choice(['', '', 'p', 'new text', 'q "x" \\'])      # (the empty string is a value: a payee "" is a payee)
         if isinstance(cur, str):
             if 'comment' in a:
                 return values.rinline_comment_value(r, False) if 'inline' in a else r.choice(['c', 'two\nlines', 'x;y', ''])
